@@ -7,11 +7,13 @@ use crate::engine::*;
 use crate::val::{Seg, V};
 use serde_json::{json, Value as J};
 
-const STRINGS: [&str; 60] = [
+const STRINGS: [&str; 64] = [
     "", "a", "ab c", "10", "007", "1.5", "1e5", "true", "True", "NULL", "null", "~", "yes", "No", "on", "inf", "nan", "Infinity", ".inf", "0x1f", "1_000",
     "a\u{e4}", "\u{65e5}\u{672c}", "it's", "say \"hi\"", "a: b", "a #b", " lead", "trail ", "-dash", "[x]", "{y}", "a,b", "line\nbreak", "tab\there",
     "back\\slash", "x'y\"z", "*alias", "&anchor", "!tag", "%pct", "@at", "|", ">", "?", "- item", "key:", "#comment", "AWS::S3::Bucket", "arn:aws:s3:::b/k",
     "NaN", "prod", "exports.handler = 1;\n", "two\nlines\n", "10\n", "a\n\nb", "first\n  indented\nlast", "true\n", "smile \u{1F600}", "\u{10348}",
+    // control characters that have to be escaped in every notation
+    "ab\u{0}cd", "\u{0}", "bell\u{7}esc\u{1b}[0m", "del\u{7f}nel\u{85}",
 ];
 const KEYSU: [&str; 14] = ["a", "b", "Name", "k1", "with space", "Type", "aws:cdk:path", "x-y_z", "10", "true", "null", "\u{fc}ber", "it's", "Fn::Join"];
 
@@ -200,6 +202,9 @@ fn check_doc(doc: &V, texts: &[(Style, String)], evals: &mut u64) -> Result<usiz
                 } else if style.ext() == "json" && via != "library" && text.contains("\\ud8") && e.contains("Error encountered while parsing data file") {
                     // JSON text with a surrogate-pair escape, rejected by the validate loader
                     "c11:load-failed:json-surrogate-pair-escape".to_string()
+                } else if style.ext() == "json" && via != "library" && text.chars().any(|c| matches!(c as u32, 0x7f..=0x9f)) && e.contains("Error encountered while parsing data file") {
+                    // JSON text with a raw DEL / C1 control character (legal in JSON, not printable for the YAML scanner)
+                    "c11:load-failed:json-raw-c1-control".to_string()
                 } else {
                     sig_for(doc, "load-failed")
                 };
